@@ -169,6 +169,12 @@ class Run:
         if fault is not None:
             k = fault['kind']
             self.count('fault-planned:%s' % k)
+            if op.get('xh'):
+                self.count('exhaustive:placements')
+                if info['fired']:
+                    self.count('exhaustive:placements-fired')
+                    if op['xh'][1]:
+                        self.count('exhaustive:fired-in-last-chunk(cap too low):%s' % op['xh'][0])
             if info['fired']:
                 self.count('fault-fired:%s' % k)
                 self.count('fault-fired:%s@%s' % (k, info.get('stage')))
@@ -345,4 +351,8 @@ def run_history(hist, refs, faults, props, opts=None):
     import warnings
     # (warnings the library may emit are not shown; filters and registries work as usual)
     warnings.showwarning = lambda *a, **k: None
-    return Run(hist, refs, faults, props, opts).execute()
+    from . import libcov
+    libcov.start()
+    res = Run(hist, refs, faults, props, opts).execute()
+    res['libcov'] = libcov.stop()
+    return res
